@@ -92,6 +92,11 @@ func (w *wire) Send(d datagram) {
 	}
 	if w.chance(w.cfg.corrupt) && len(d.b) > 0 {
 		d.b = append([]byte(nil), d.b...)
+		if len(d.b) >= 2 && t.Chance(1, 4) {
+			v := []uint16{0xFFFF, 0xFFFE, 0x0000, 0x8000, 0x7FFF, uint16(len(d.b))}[t.Intn(6)]
+			i := t.Intn(len(d.b) - 1)
+			d.b[i], d.b[i+1] = byte(v>>8), byte(v)
+		}
 		nflip := 1 + t.Intn(8)
 		for i := 0; i < nflip; i++ {
 			var pos int
@@ -202,7 +207,14 @@ func (w *wire) garbageBytes() []byte {
 	if len(b) == 0 {
 		return b
 	}
-	switch t.Intn(4) {
+	switch t.Intn(6) {
+	case 4, 5:
+		// a 16-bit field somewhere in the packet takes a boundary value (length / size / count fields)
+		if len(b) >= 2 {
+			v := []uint16{0xFFFF, 0xFFFE, 0x0000, 0x0001, 0x8000, 0x7FFF, 0x00FF, 0x0100, uint16(len(b)), uint16(len(b) - 1)}[t.Intn(10)]
+			i := t.Intn(len(b) - 1)
+			b[i], b[i+1] = byte(v>>8), byte(v)
+		}
 	case 0:
 		b[t.Intn(minI(4, len(b)))] = boundaryAlphabet[t.Intn(len(boundaryAlphabet))]
 	case 1:
